@@ -176,6 +176,46 @@ func runC15(c *Check) {
 	c15GenericHandlers(c, P)
 	c15Registration(c, P)
 	c15UnsetConfigFields(c, P+".O5")
+	// the library's own, older entry points (NewEventProcessor, the Facade) promise "events of other types are acked":
+	// an event-processor configuration the library writes itself says so
+	nlit := 0
+	for _, fn := range c.P.SrcFuncs("components/cqrs") {
+		AllInstrs(fn, func(in ssa.Instruction) {
+			al, ok := in.(*ssa.Alloc)
+			if !ok {
+				return
+			}
+			T := NamedOf(al.Type())
+			if T == nil || T.Obj().Name() != "EventProcessorConfig" || T.Obj().Pkg().Path() != cqrsPkg {
+				return
+			}
+			if _, isPtr := al.Type().Underlying().(*types.Pointer); !isPtr {
+				return
+			}
+			// a literal: fields are stored one by one (the spill of a parameter is one whole store)
+			lit, set := false, false
+			for _, ref := range *al.Referrers() {
+				if fa, isFA := ref.(*ssa.FieldAddr); isFA {
+					for _, r2 := range *fa.Referrers() {
+						if st, isSt := r2.(*ssa.Store); isSt && st.Addr == ssa.Value(fa) {
+							lit = true
+							if f, _ := FieldOf(fa); f != nil && f.Name() == "AckOnUnknownEvent" {
+								if cst, isC := st.Val.(*ssa.Const); isC && cst.Value != nil && cst.Value.String() == "true" {
+									set = true
+								}
+							}
+						}
+					}
+				}
+			}
+			if !lit {
+				return
+			}
+			nlit++
+			c.Report(set, P+".O3", "LEGACY-ENTRY-POINTS-ACK-UNKNOWN-EVENTS", fn, al.Pos(), "EventProcessorConfig literal in "+fn.Name(), "an event-processor configuration written by the library itself (deprecated constructor, Facade) sets AckOnUnknownEvent: events of other types on a shared topic are acknowledged there, as before")
+		})
+	}
+	c.Report(true, P+".O3", "LEGACY-CONFIG-LITERALS-SCANNED", nil, token.NoPos, "package cqrs", fmt.Sprintf("%d EventProcessorConfig literals written by the library", nlit))
 }
 
 // c15Registration: what a processor registers on the router — the subscribe topic is what the configured
@@ -295,7 +335,12 @@ func c15Registration(c *Check, P string) {
 			k := fn.Signature.Results().Len() - 1
 			adds := Callers([]*ssa.Function{fn}, addOne)
 			stores := FieldStores(fn, listF)
-			deferredEdge, _ := BoolEdges(fn, func(v ssa.Value) bool { return AllOrigins(v, func(o ssa.Value) bool { f := LoadedField(o); return f != nil && !f.Exported() && f.Type().String() == "bool" }) })
+			deferredEdge, _ := BoolEdges(fn, func(v ssa.Value) bool {
+				return AllOrigins(v, func(o ssa.Value) bool {
+					f := LoadedField(o)
+					return f != nil && !f.Exported() && f.Type().String() == "bool"
+				})
+			})
 			for i, r := range Returns(fn) {
 				if !RetNil(r, k) {
 					continue
@@ -526,17 +571,7 @@ func c15Processor(c *Check, P string, outer, C *ssa.Function, kind string) {
 			c.Report(Dominates(C, u, h), P+".O1", "UNMARSHAL-BEFORE-HANDLE", C, h.Pos(), kind+" handler call", "the value is unmarshaled before the handler is called")
 		}
 	}
-	// the value that is filled and handed to the handler is created anew for this message (inside the closure)
-	for _, u := range unm {
-		okFresh := AllOrigins(Arg(u, 1), func(o ssa.Value) bool {
-			call, ok := o.(*ssa.Call)
-			if !ok || !call.Call.IsInvoke() || (call.Call.Method.Name() != "NewCommand" && call.Call.Method.Name() != "NewEvent") {
-				return false
-			}
-			return call.Parent() == C
-		})
-		c.Report(okFresh, P+".O1", "FRESH-VALUE-PER-MESSAGE", C, u.Pos(), kind+" Unmarshal target", "the value Unmarshal fills is a NewCommand()/NewEvent() result created inside the per-message closure (never one captured from the set-up code and shared between messages)")
-	}
+	c15FreshTarget(c, P+".O1", C, kind)
 	// the handler gets the unmarshaled value and the handler of this iteration
 	for _, h := range hcalls {
 		if len(h.Common().Args) != 1 {
@@ -737,6 +772,21 @@ func c15Processor(c *Check, P string, outer, C *ssa.Function, kind string) {
 
 	// O7 original message in context
 	c15OriginalMessageCtx(c, P+".O7", C, kind)
+}
+
+// c15FreshTarget: the value that is filled and handed to the handler is created anew for this message (inside the closure).
+// Shared with C18: a reply computed from a command object shared between requests carries another request's data.
+func c15FreshTarget(c *Check, id string, C *ssa.Function, kind string) {
+	for _, u := range CallsTo(C, nUnmarshal) {
+		okFresh := AllOrigins(Arg(u, 1), func(o ssa.Value) bool {
+			call, ok := o.(*ssa.Call)
+			if !ok || !call.Call.IsInvoke() || (call.Call.Method.Name() != "NewCommand" && call.Call.Method.Name() != "NewEvent") {
+				return false
+			}
+			return call.Parent() == C
+		})
+		c.Report(okFresh, id, "FRESH-VALUE-PER-MESSAGE", C, u.Pos(), kind+" Unmarshal target", "the value Unmarshal fills is a NewCommand()/NewEvent() result created inside the per-message closure (never one captured from the set-up code and shared between messages)")
+	}
 }
 
 // c15OriginalMessageCtx: the processor closure puts the consumed message into the context it hands to the handler
